@@ -246,3 +246,20 @@ def check(ctx):
     ctx.decide(len(stores) == 1 and refreshed, "R-MUSTPASS/regenerate-refresh", f"{msg.qual}.update_avps", msg.where(ua),
                "the regenerated id is stored and the length refreshed on every path",
                "update_avps does not refresh the Message Length on every path", key="refresh", nontrivial=False)
+
+    # a Session-Id supplied as bytes is carried unchanged: the constructors of the data types a Session-Id AVP is built from keep a
+    # bytes argument as it is on every path (shared with C02 R-ALIAS/bytes-identity: normalising, re-encoding or stripping the
+    # octets changes the id a peer sent, and the answer echoes an id the peer never used)
+    ctx.clause = "5-bytes-unchanged"
+    from .c02 import summary_stores_id
+    memo_ = {}
+    for tq in ("bromelia.types.OctetStringType", "bromelia.types.UTF8StringType"):
+        tc = repo.cls(tq)
+        ini_ = tc.methods.get("__init__") if tc is not None else None
+        if ini_ is None:
+            continue
+        ctx.decide(summary_stores_id(repo, tc, ini_, memo_), "R-ALIAS/bytes-identity", f"{tc.qual}.__init__", tc.where(ini_),
+                   "bytes input is stored unchanged",
+                   "on the isinstance(data, bytes) path the data field does not end up holding the given bytes: a Session-Id supplied "
+                   "as bytes (decoded from the wire, or passed by the application) is altered", key=f"bytes_identity:{tc.name}")
+
